@@ -30,13 +30,16 @@ def collect(ctx, tag):
 
 
 def run(ctx):
-    ctx.extra["rule"] = ("every strategy exported by skactiveml.pool (36 configurations incl. selection methods / greedy flags / wrappers) x seeded "
+    ctx.extra["rule"] = ("every strategy exported by skactiveml.pool (40 configurations incl. selection methods / greedy flags / wrappers) x seeded "
                          "data sets (integer grid with duplicated points, constant feature, cold start, one remaining candidate) x candidate "
                          "modes (None, index subsets incl. duplicated indices, arbitrary index sets for sample-wise strategies, feature rows) x "
                          "batch sizes {1,2,3,n_cand,n_cand+5}; non-trivial = batch of >= 2 indices or clipped batch size; distinct = (strategy, data, candidates, bs, seed)")
     ctx.trusted += ["the numeric layer (scores) is an oracle: C01 is proved for every utility array and validated on the arrays produced"]
     ctx.assume += ["documented preconditions respected (EpistemicUncertaintySampling: two classes; ParallelUtilityEstimationWrapper: batch_size=1; "
                    "enforce_mapping strategies: no feature-row candidates; FourDs: MixtureModelClassifier; RegressionTreeBasedAL: tree regressor)"]
+    ctx.trusted += ["harness/translate/skeleton.py (ast -> Model/SkelDsl.v term per `return simple_batch` site; fail-closed: unrecognised shapes become non-canonical constructors)",
+                    "harness/loops.py: scripted numeric layers (integer coordinates, 0/1 distance matrix, scripted cluster algorithms / discriminator, recorded _d_2 and "
+                    "pre-filtered sets, the library's own _typicality as oracle); tie-breaking noise reproduced from a twin's random_state_ (numpy RandomState)"]
     ctx.coq_props()
     from ..skel import check_skeleton_table
     check_skeleton_table(ctx)
